@@ -3,6 +3,7 @@ package main
 // Obligations, reviewed table, known findings, verdict and evidence.
 
 import (
+	"strings"
 	"encoding/json"
 	"fmt"
 	"os"
@@ -198,6 +199,15 @@ func resolve(prop string, results []*RuleResult) (*Verdict, error) {
 				if _, ok := rev[o.Key]; !ok {
 					if _, ok := known[o.Key]; !ok {
 						// moved into a single-caller helper: the caller's entry (its n-th, for repeated constructs)
+						// the function was renamed, or a helper was inlined into it, since the entry was recorded
+						if theProgram != nil {
+							parts := strings.SplitN(o.Key, "|", 3)
+							if len(parts) == 3 {
+								for _, oldFn := range theProgram.keyAliases()[parts[1]] {
+									o.Alias = append(o.Alias, parts[0]+"|"+oldFn+"|"+parts[2])
+								}
+							}
+						}
 					alias:
 						for _, a := range o.Alias {
 							for n := 1; n <= 4; n++ {
